@@ -418,3 +418,55 @@ Proof.
   - split; [discriminate|]. left. reflexivity.
   - exfalso. destruct (all_convertible_ok img adm st _ Hvalid) as [b Hb]. congruence.
 Qed.
+
+(* ---------- the fuel of hex suffices: hex n denotes n (no silent truncation) ---------- *)
+Local Open Scope N_scope.
+
+Definition hexdigit_val (c : N) : N := if c <? 58 then c - 48 else c - 87.
+Definition hval (s : str) : N := fold_left (fun a c => 16 * a + hexdigit_val c) s 0.
+
+Lemma fold_hval_acc s : forall a,
+  fold_left (fun a c => 16 * a + hexdigit_val c) s a = a * 16 ^ N.of_nat (length s) + hval s.
+Proof.
+  unfold hval. induction s as [|c s IH]; intro a.
+  - simpl. lia.
+  - cbn [fold_left length]. rewrite IH, (IH (16 * 0 + hexdigit_val c)). rewrite Nat2N.inj_succ, N.pow_succ_r'. lia.
+Qed.
+
+Lemma hexdigit_val_digit m : m < 16 -> hexdigit_val (hexdigit m) = m.
+Proof.
+  intro H. unfold hexdigit, hexdigit_val. destruct (m <? 10) eqn:E.
+  - apply N.ltb_lt in E. assert (E2 : 48 + m <? 58 = true) by (apply N.ltb_lt; lia). rewrite E2. lia.
+  - apply N.ltb_ge in E. assert (E2 : 87 + m <? 58 = false) by (apply N.ltb_ge; lia). rewrite E2. lia.
+Qed.
+
+Lemma hex_fuel_val : forall fuel n acc,
+  n < 2 ^ N.of_nat fuel ->
+  hval (hex_fuel fuel n acc) = n * 16 ^ N.of_nat (length acc) + hval acc.
+Proof.
+  induction fuel as [|f IH]; intros n acc Hn.
+  - simpl in Hn. assert (n = 0) by lia. subst. simpl. lia.
+  - cbn [hex_fuel].
+    assert (Hmod : n mod 16 < 16) by (apply N.mod_lt; lia).
+    assert (Hdiv : n = 16 * (n / 16) + n mod 16) by (apply N.div_mod; lia).
+    set (q := n / 16) in *. set (m := n mod 16) in *.
+    assert (Hc : hval (hexdigit m :: acc) = m * 16 ^ N.of_nat (length acc) + hval acc).
+    { unfold hval at 1. cbn [fold_left]. rewrite fold_hval_acc, hexdigit_val_digit by exact Hmod. lia. }
+    destruct (q =? 0) eqn:E.
+    + apply N.eqb_eq in E. rewrite Hc. rewrite E in Hdiv. lia.
+    + apply N.eqb_neq in E. rewrite IH.
+      * rewrite Hc. cbn [length]. rewrite Nat2N.inj_succ, N.pow_succ_r'. lia.
+      * rewrite Nat2N.inj_succ, N.pow_succ_r' in Hn. lia.
+Qed.
+
+Lemma hval_hex n : hval (hex n) = n.
+Proof.
+  unfold hex. rewrite hex_fuel_val.
+  - simpl. unfold hval. simpl. lia.
+  - rewrite Nat2N.inj_succ, N2Nat.id.
+    destruct n as [|p]; [simpl; lia|].
+    apply N.log2_lt_pow2; lia.
+Qed.
+
+Lemma hex_inj a b : hex a = hex b -> a = b.
+Proof. intro H. rewrite <- (hval_hex a), <- (hval_hex b), H. reflexivity. Qed.
